@@ -422,23 +422,28 @@ def C(suite, mode='full', kind='tie', only=None):
 
 # (suite, n_quick, n_thorough, extra args) and the comparisons made on its lines
 PROPS = {
-    'C01': dict(suites=[('tree', 1500, 60000), ('lex', 1500, 40000), ('serve', 3000, 60000), ('treex', 3, 4), ('lexx', 3, 4), ('servex', 1, 2)],
+    # ... and "every accepted configuration" includes those put in force by Reconfigure, also for handlers wrapped earlier
+    'C01': dict(suites=[('tree', 1500, 60000), ('lex', 1500, 40000), ('serve', 3000, 60000), ('treex', 3, 4), ('lexx', 3, 4), ('servex', 1, 2), ('history', 100, 2500), ('historyx', 3, 4)],
                 cmps=[C('tree', 'treebits', 'spec'), C('lex', 'full', 'tie', only=('parse',)), C('serve', 'bitsPA', 'spec'),
                       C('treex', 'treebits', 'spec'), C('lexx', 'full', 'tie', only=('parse',)), C('servex', 'bitsPA', 'spec'),
                       # the decision as the middleware itself takes it (the tree as validation built it), seen through the CORS headers
-                      C('serve', 'c03', 'tie'), C('servex', 'c03', 'tie')]),
+                      C('serve', 'c03', 'tie'), C('servex', 'c03', 'tie'), C('history', 'c03', 'tie'), C('historyx', 'c03', 'tie')]),
     # "every accepted configuration" includes the ones put in force by Reconfigure on a middleware whose handlers were wrapped earlier
     'C02': dict(suites=[('intents', 6000, 200000), ('serve', 3000, 80000), ('tree', 500, 20000), ('acrh', 1000, 40000), ('history', 100, 3000), ('acrhx', 4, 5), ('servex', 1, 2), ('history', 60, 1500, ('-adversarial',)), ('historyx', 3, 4)],
                 cmps=[C('intents', 'firsttoken', 'spec'), C('serve', 'full', 'tie'), C('tree', 'treebits', 'spec'), C('acrh', 'full', 'spec'), C('history', 'dec', 'spec'),
                       C('acrhx', 'full', 'spec'), C('servex', 'full', 'tie'), C('historyx', 'dec', 'spec')]),
     # C03 speaks of *allowed* origins: the ties of the two origin-decision components (tree, request-side lexer) belong to it
     # ... and "the configuration" is the one in force after any history of Reconfigure calls, also for handlers wrapped earlier
-    'C03': dict(suites=[('serve', 6000, 150000), ('tree', 800, 30000), ('lex', 800, 30000), ('history', 120, 3000), ('treex', 3, 4), ('lexx', 3, 4), ('servex', 1, 2), ('historyx', 3, 4)],
+    # ... and "exactly the configured values" also after a wrapped handler wrote in place into the slices it was handed
+    'C03': dict(suites=[('serve', 6000, 150000), ('tree', 800, 30000), ('lex', 800, 30000), ('history', 120, 3000), ('treex', 3, 4), ('lexx', 3, 4), ('servex', 1, 2), ('historyx', 3, 4), ('history', 80, 2000, ('-adversarial',))],
                 cmps=[C('serve', 'c03', 'tie'), C('tree', 'treebits', 'spec'), C('lex', 'full', 'tie', only=('parse',)), C('history', 'c03', 'tie'),
                       C('treex', 'treebits', 'spec'), C('lexx', 'full', 'tie', only=('parse',)), C('servex', 'c03', 'tie'), C('historyx', 'c03', 'tie')]),
-    'C04': dict(suites=[('validate', 3000, 100000), ('names', 300, 20000), ('lex', 1000, 20000), ('validatex', 2, 3), ('lexx', 3, 4)],
-                cmps=[C('validate', 'accept', 'spec'), C('names', 'full', 'tie'), C('lex', 'full', 'tie', only=('pattern',)), C('validatex', 'accept', 'spec'), C('lexx', 'full', 'tie', only=('pattern',))]),
-    'C05': dict(suites=[('validate', 6000, 150000), ('validatex', 2, 3)], cmps=[C('validate', 'full', 'spec'), C('validatex', 'full', 'spec')]),
+    # Reconfigure is one of the two entry points the property names: what it accepts must not depend on the configuration in force
+    'C04': dict(suites=[('validate', 3000, 100000), ('names', 300, 20000), ('lex', 1000, 20000), ('validatex', 2, 3), ('lexx', 3, 4), ('history', 150, 4000), ('historyx', 3, 4)],
+                cmps=[C('validate', 'accept', 'spec'), C('names', 'full', 'tie'), C('lex', 'full', 'tie', only=('pattern',)), C('validatex', 'accept', 'spec'), C('lexx', 'full', 'tie', only=('pattern',)),
+                      C('history', 'full', 'spec', only=('h.new', 'h.reconf')), C('historyx', 'full', 'spec', only=('h.new', 'h.reconf'))]),
+    'C05': dict(suites=[('validate', 6000, 150000), ('validatex', 2, 3), ('history', 100, 3000), ('historyx', 3, 4)], cmps=[C('validate', 'full', 'spec'), C('validatex', 'full', 'spec'),
+                C('history', 'full', 'spec', only=('h.new', 'h.reconf')), C('historyx', 'full', 'spec', only=('h.new', 'h.reconf'))]),
     'C06': dict(suites=[('roundtrip', 1500, 60000), ('history', 150, 4000), ('validate', 2000, 50000), ('treex', 3, 4), ('historyx', 3, 4)],
                 cmps=[C('roundtrip', 'full', 'spec'), C('history', 'dec', 'tie'), C('validate', 'full', 'tie'), C('treex', 'full', 'tie'), C('historyx', 'dec', 'tie')]),
     # the adversarial history (in-place writes to Config() results and to the Config passed in) checks "never mutated after publication"
@@ -459,10 +464,13 @@ PROPS = {
     'C13': dict(suites=[('lex', 4000, 150000), ('lexx', 3, 4), ('ip6x', 3, 4), ('validatex', 2, 3)], cmps=[C('ip6x', 'full', 'tie', only=('pattern',)), C('ip6x', 'full', 'tie', only=('parse',)),
                                                                          C('lex', 'full', 'tie', only=('pattern',)), C('lex', 'full', 'tie', only=('parse',)),
                                                                          C('lexx', 'full', 'tie', only=('pattern',)), C('lexx', 'full', 'tie', only=('parse',)), C('validatex', 'full', 'tie')]),
-    'C14': dict(suites=[('acrh', 3000, 150000), ('serve', 2000, 50000), ('acrhx', 4, 5), ('servex', 1, 2), ('history', 60, 1500, ('-adversarial',))], cmps=[C('acrh', 'full', 'spec'), C('serve', 'bitsH', 'spec'), C('acrhx', 'full', 'spec'), C('servex', 'bitsH', 'spec'), C('history', 'dec', 'spec')]),
+    # the allowed set holds the byte-lowercased configured names (names suite); the verdict on a preflight must not depend on the preflights answered before it (histories)
+    'C14': dict(suites=[('acrh', 3000, 150000), ('serve', 2000, 50000), ('acrhx', 4, 5), ('servex', 1, 2), ('history', 60, 1500, ('-adversarial',)), ('names', 300, 20000), ('history', 150, 4000), ('historyx', 3, 4)],
+                cmps=[C('acrh', 'full', 'spec'), C('serve', 'bitsH', 'spec'), C('acrhx', 'full', 'spec'), C('servex', 'bitsH', 'spec'), C('history', 'dec', 'spec'), C('names', 'full', 'tie'), C('historyx', 'dec', 'spec')]),
     # order independence of Origins is a property of the tree: its tie belongs to the check
-    'C15': dict(suites=[('twins', 4000, 150000), ('validate', 2000, 50000), ('tree', 800, 30000), ('treex', 3, 4)],
-                cmps=[C('twins', 'full', 'spec'), C('validate', 'full', 'tie'), C('tree', 'treebits', 'spec'), C('treex', 'treebits', 'spec')]),
+    # ... and a configuration means the same when Reconfigure puts it in force on a middleware that holds a relative of it (histories)
+    'C15': dict(suites=[('twins', 4000, 150000), ('validate', 2000, 50000), ('tree', 800, 30000), ('treex', 3, 4), ('history', 150, 4000), ('historyx', 3, 4)],
+                cmps=[C('twins', 'full', 'spec'), C('validate', 'full', 'tie'), C('tree', 'treebits', 'spec'), C('treex', 'treebits', 'spec'), C('history', 'dec', 'spec'), C('historyx', 'dec', 'spec')]),
     # "debug off" is a state of the documented state machine (C09): histories belong to the check
     'C16': dict(suites=[('serve', 8000, 200000), ('history', 150, 4000), ('servex', 1, 2), ('historyx', 3, 4)], cmps=[C('serve', 'c16', 'tie'), C('history', 'c16h', 'tie'), C('servex', 'c16', 'tie'), C('historyx', 'c16h', 'tie')]),
     'C17': dict(suites=[('lex', 1000, 30000), ('tree', 500, 20000), ('acrh', 1000, 30000), ('validate', 1500, 50000),
